@@ -299,8 +299,14 @@ impl Subscriber for SubscriberService {
                     return Ok(Response::new(PullResponse { received_messages }));
                 }
 
-                // Otherwise, wait for messages to be available.
-                signal.await;
+                // Otherwise, wait for messages to be available. If the subscription
+                // is deleted while we wait, there is nothing left to wait for.
+                tokio::select! {
+                    _ = signal => {},
+                    _ = subscription.deleted() => {
+                        return Err(subscription_not_found(&subscription_name));
+                    }
+                }
             }
         };
 
